@@ -609,6 +609,21 @@ class LazySplit(IterVal):
                 piece = sub(piece, 0, len(piece.b) - 1)
         return piece, rest
 
+    def nxt_back(self, I):
+        # double-ended use: materialise the remaining pieces front to back, hand out the last one
+        from .models import ListIter
+        items, it = [], self
+        while True:
+            x, it = it.nxt(I)
+            if x is None:
+                break
+            items.append(x)
+            if len(items) > 100000:
+                raise Truncated('split too long')
+        if not items:
+            return None, ListIter([])
+        return items[-1], ListIter(items[:-1])
+
 
 @reg('str::split')
 def _split(I, a, ci, dt):
